@@ -317,9 +317,10 @@ func init() {
 		return TupleV{st.newByteSlice(st.sliceBytes(v)), IfaceV{}}, true
 	}
 
-	// ---- badger iterators: visit exactly the keys that have the Seek prefix (insertion order; badger's order is
-	// lexicographic - callers in scope collect into maps or filter, the order is not asserted by any harness) ----
-	// iterator object: ArrayV{kv MapV, pos const, prefix StringV}
+	// ---- badger iterators: visit exactly the present keys that have the Seek prefix, in LEXICOGRAPHIC key order (as
+	// badger does): the next key is the smallest qualifying key not visited yet; qualification and order are decided by
+	// the solver (forks). ----
+	// iterator object: ArrayV{kv MapV, pos const, prefix StringV, visited-bitmask const}
 	hasPrefix := func(key, prefix StringV) *Term {
 		if len(prefix.B) > len(key.B) {
 			return False
@@ -329,24 +330,54 @@ func init() {
 		}
 		return wideEq(key.B[:len(prefix.B)], prefix.B)
 	}
-	// advance returns the first position >= from whose key is present and has the prefix (forks; the calling
+	strLess := func(a, b StringV) *Term {
+		n := len(a.B)
+		if len(b.B) < n {
+			n = len(b.B)
+		}
+		res := ConstBool(len(a.B) < len(b.B))
+		for i := n - 1; i >= 0; i-- {
+			res = Ite(Eq(a.B[i], b.B[i]), res, BVUlt(a.B[i], b.B[i]))
+		}
+		return res
+	}
+	// advance returns the position of the smallest qualifying key that is not in the visited mask (forks; the calling
 	// instruction is re-executed in the clones, so no state is written before the decision is complete)
-	advance := func(e *Engine, st *State, kv MapV, from int, prefix StringV) int {
+	advance := func(e *Engine, st *State, kv MapV, visited uint64, prefix StringV) int {
 		mo := st.obj(kv.Obj).V.(*MapObj)
-		for i := from; i < len(mo.Entries); i++ {
-			c := And(mo.Entries[i].Present, hasPrefix(mo.Entries[i].K.(StringV), prefix))
-			if e.decide(st, c) {
-				return i
+		best := -1
+		for i := 0; i < len(mo.Entries) && i < 64; i++ {
+			if visited&(1<<uint(i)) != 0 {
+				continue
 			}
+			c := And(mo.Entries[i].Present, hasPrefix(mo.Entries[i].K.(StringV), prefix))
+			q := e.decide(st, c)
 			if st.status != Running {
 				return -1
 			}
+			if !q {
+				continue
+			}
+			if best < 0 {
+				best = i
+				continue
+			}
+			less := e.decide(st, strLess(mo.Entries[i].K.(StringV), mo.Entries[best].K.(StringV)))
+			if st.status != Running {
+				return -1
+			}
+			if less {
+				best = i
+			}
 		}
-		return len(mo.Entries)
+		if best < 0 {
+			return len(mo.Entries)
+		}
+		return best
 	}
 	exact["(*"+bp+"Txn).NewIterator"] = func(e *Engine, st *State, fn *ssa.Function, args []Value, retTo *ssa.Call) (Value, bool) {
 		kv := e.kvOf(st, args[0])
-		id := st.alloc(&ArrayV{E: []Value{kv, ConstU(1<<30, 64), StringV{}}})
+		id := st.alloc(&ArrayV{E: []Value{kv, ConstU(1<<30, 64), StringV{}, ConstU(0, 64)}})
 		return Ptr{Obj: id}, true
 	}
 	exact["(*"+bp+"Iterator).Close"] = noop
@@ -359,18 +390,23 @@ func init() {
 			return nil, true
 		}
 		w := st.wobj(it.Obj).V.(*ArrayV)
-		w.E[1], w.E[2] = ConstU(uint64(pos), 64), prefix
+		w.E[1], w.E[2], w.E[3] = ConstU(uint64(pos), 64), prefix, ConstU(0, 64)
 		return nil, true
 	}
 	exact["(*"+bp+"Iterator).Next"] = func(e *Engine, st *State, fn *ssa.Function, args []Value, retTo *ssa.Call) (Value, bool) {
 		it := args[0].(Ptr)
 		o := st.obj(it.Obj).V.(*ArrayV)
 		cur := int(o.E[1].(*Term).Int64())
-		pos := advance(e, st, o.E[0].(MapV), cur+1, o.E[2].(StringV))
+		visited := o.E[3].(*Term).Uint64()
+		if cur < 64 {
+			visited |= 1 << uint(cur)
+		}
+		pos := advance(e, st, o.E[0].(MapV), visited, o.E[2].(StringV))
 		if st.status != Running {
 			return nil, true
 		}
-		st.wobj(it.Obj).V.(*ArrayV).E[1] = ConstU(uint64(pos), 64)
+		w := st.wobj(it.Obj).V.(*ArrayV)
+		w.E[1], w.E[3] = ConstU(uint64(pos), 64), ConstU(visited, 64)
 		return nil, true
 	}
 	exact["(*"+bp+"Iterator).ValidForPrefix"] = func(e *Engine, st *State, fn *ssa.Function, args []Value, retTo *ssa.Call) (Value, bool) {
